@@ -256,6 +256,8 @@ def abstract(case_line, out):
                 ev.append(f'{tid}:{"cbb" if t[2] == "begin" else "cbe"}:{t[1]}')
             elif k in ('st', 'end'):
                 pass
+            elif re.match(r'(ld|st|xchg|casw|cass|fadd|fsub) o\d+( |$)', n):
+                pass        # an atomic the harness did not name (a statistics counter, say): not a protocol variable
             else:
                 raise Bad('note ' + n)
     return f'obrrace {ninst} {"".join(map(str, init)) or "-"} ; ' + ' ; '.join(ev)
